@@ -441,6 +441,19 @@ impl MuxStream {
             .flush(ctx)
             .await
     }
+    /// Splits into (read half, write half) so that both can be driven concurrently.
+    pub fn split(self) -> (MuxStream, MuxStream) {
+        (
+            MuxStream {
+                read: self.read,
+                write: None,
+            },
+            MuxStream {
+                read: None,
+                write: self.write,
+            },
+        )
+    }
     /// Drops the write half (the peer sees end of stream after the data).
     pub fn close_write(&mut self) {
         self.write.take();
